@@ -100,10 +100,15 @@ Summary(w) == [exit |-> w.exit, arg |-> w.arg, pc |-> w.s.pc, gas |-> w.s.gas, r
 Judge(e) ==
   IF e.k = "invoke" THEN {[why |-> y, want |-> NoWant] : y \in JudgeInvoke(e)}
   ELSE IF e.k = "deblob" THEN {[why |-> "deblob-refused" \o (IF e.gopanic # "" THEN "+gopanic" ELSE ""), want |-> NoWant]}
-  ELSE IF Mode = "c01" THEN
-    LET w == RunEnv(e.prog, StateOf(e.pre)) IN
-    IF e.a.exit = "gopanic" THEN {[why |-> "gopanic", want |-> Summary(w)]}
-    ELSE LET d == Diff(w, e.a) IN IF d = {} THEN {} ELSE {[why |-> JoinSet(d), want |-> Summary(w)]}
+  ELSE IF Mode \in {"c01", "both"} THEN
+    LET w == RunEnv(e.prog, StateOf(e.pre))
+        ja == IF e.a.exit = "gopanic" THEN {[why |-> "gopanic", want |-> Summary(w)]}
+              ELSE LET d == Diff(w, e.a) IN IF d = {} THEN {} ELSE {[why |-> JoinSet(d), want |-> Summary(w)]}
+        \* mode "both" (C05): the single-step engine (used for inner machines) is held to the same specification
+        jb == IF Mode = "c01" \/ e.b.exit = "skipped" THEN {}
+              ELSE IF e.b.exit = "gopanic" THEN {[why |-> "stepengine:gopanic", want |-> Summary(w)]}
+              ELSE LET d == Diff(w, e.b) IN IF d = {} THEN {} ELSE {[why |-> "stepengine:" \o JoinSet(d), want |-> Summary(w)]}
+    IN ja \cup jb
   ELSE
     IF e.b.exit = "skipped" THEN {}
     ELSE IF e.a.exit = "gopanic" \/ e.b.exit = "gopanic"
